@@ -140,6 +140,18 @@ def check_objects(res, rng, t, reps):
         res.case(('pair-fixed', 'plane', 'antiparallel', str(pl_pts)), nontrivial=True)
         res.count('plane:antiparallel-fixed')
         check_pair(res, t, 'plane', 'antiparallel', Xa, Xb, inpd, sited)
+    # repaired defect 19, deterministically: point pairs A^B and +-(B^C) that share the point B in different slots; for one orientation X2*X1 has the
+    # scalar part -1, 1 + X2*X1 is null and the half turn of the special branch leaves the pair in a position of the same kind
+    for tri in ([(4, -3, 3), (3, 4, 3), (-4, 3, 3)], [(0, 0, 2), (4, -4, -3), (3, 4, -2)], [(-2, 3, -1), (-2, 3, -2), (-1, 1, 0)], [(4, -3, 0), (-2, -4, 2), (-4, -2, 0)]):
+        ptsd = [float(a) * t.e1 + float(b) * t.e2 + float(c) * t.e3 for a, b, c in tri]
+        Xa = build('point_pair', ptsd[:2], t).normal()
+        for sg in (1, -1):
+            Xb = sg * build('point_pair', ptsd[1:], t).normal()
+            sited = dict(site0, kind='point_pair', position='chained' if sg == 1 else 'chained_flipped')
+            inpd = dict(sited, points=[list(p) for p in tri], X1=Xa.value.tolist(), X2=Xb.value.tolist())
+            res.case(('pair-fixed', 'point_pair', 'chained', sg, str(tri)), nontrivial=True)
+            res.count('point_pair:chained-fixed')
+            check_pair(res, t, 'point_pair', sited['position'], Xa, Xb, inpd, sited)
     for kind in KINDS:
         for _ in range(reps):
             pts, X1 = make_object(rng, t, kind)
@@ -150,7 +162,11 @@ def check_objects(res, rng, t, reps):
                 positions += ['dilated', 'concentric']
             if kind in ('line', 'plane'):
                 positions += ['parallel', 'antiparallel']
-            positions += ['intersecting']
+            positions += ['intersecting', 'intersecting_flipped']
+            if kind == 'point_pair':
+                # point pairs that share a point, the shared point in different slots (A^B and +-(B^C)): for one of the two orientations
+                # X2*X1 has scalar part -1 and 1 + X2*X1 is null (defect 19)
+                positions += ['chained', 'chained_flipped']
             if kind in ('point_pair', 'circle'):
                 # positions in which C*~C (C = 1 + X2*X1) is a negative scalar: the 'infinite roots' branch of the normalising root, R*~R = -1
                 positions += ['disjoint', 'nested_opposite', 'coaxial_opposite']
@@ -210,13 +226,19 @@ def check_objects(res, rng, t, reps):
                     # parallel, at another place, with the opposite orientation (facing planes / lines running the other way): 1 + X2*X1 is null
                     V = t.generate_translation_rotor(float(rng.choice([1.0, 2.0, 0.5])) * t.e1 + float(rng.choice([1.0, -2.0])) * t.e2 - 3.0 * t.e3)
                     X2 = -(V * X1 * ~V).normal()
-                elif position == 'intersecting':
-                    # share the first defining point
+                elif position in ('intersecting', 'intersecting_flipped'):
+                    # share the first defining point (and the same with the other orientation of X2)
                     p2 = [pts[0]] + [ipt(rng, t) for _ in range(NPTS[kind] - 1)]
                     X2 = build(kind, p2, t)
                     if abs(float((X2 * X2).value[0])) < 1e-3:
                         continue
-                    X2 = X2.normal()
+                    X2 = X2.normal() if position == 'intersecting' else -X2.normal()
+                elif position in ('chained', 'chained_flipped'):
+                    p2 = [pts[1], ipt(rng, t)]
+                    X2 = build(kind, p2, t)
+                    if abs(float((X2 * X2).value[0])) < 1e-3:
+                        continue
+                    X2 = X2.normal() if position == 'chained' else -X2.normal()
                 if X2 is None:
                     continue
                 if near(X2, -X1, 1.0, 1e-9):
